@@ -120,7 +120,11 @@ def gen_identifier(rng):
     first = "abcdefghijklmnopqrstuvwxyzABCDEFGHIJKLMNOPQRSTUVWXYZ_$"
     rest = first + "0123456789"
     while True:
-        s = rng.choice(first) + "".join(rng.choice(rest) for _ in range(rng.randint(0, 6)))
+        if rng.random() < 0.25:
+            # a keyword with something glued to it is an ordinary identifier (longest match): int$x, for_each, case9, do$, _Boolean
+            s = rng.choice(C99_KEYWORDS + C11_KEYWORDS) + rng.choice(["$", "_", "9", "x"]) + "".join(rng.choice(rest) for _ in range(rng.randint(0, 3)))
+        else:
+            s = rng.choice(first) + "".join(rng.choice(rest) for _ in range(rng.randint(0, 6)))
         if s not in C99_KEYWORDS + C11_KEYWORDS + EXT_KEYWORDS and s not in ("L", "u", "U", "u8"):
             return s
 
